@@ -161,6 +161,82 @@ def special_files_scenario(viol):
         pr.destroy()
 
 
+def user_directory_scenario(viol):
+    """A directory the user made, with the user's files in it, at a name matched by a rule whose output is a directory
+    (`mkdir "$3"`): no redo command may remove or replace it, requested directly or as a dependency, whatever status
+    the command ends with."""
+    from proj import Project
+    pr = Project()
+    try:
+        os.makedirs(pr.path("docs.site"))
+        pr.write("docs.site/precious.txt", "written by hand")
+        os.makedirs(pr.path("empty.site"))
+        pr.write("default.site.do", 'mkdir "$3"\necho generated >"$3/index.html"\n')
+        pr.write("all.do", "redo-ifchange docs.site\n")
+        ino = {n: os.lstat(pr.path(n)).st_ino for n in ("docs.site", "docs.site/precious.txt", "empty.site")}
+        outs = []
+        for argv in (["redo-ifchange", "docs.site"], ["redo", "docs.site"], ["redo", "all"], ["redo-ifchange", "all"], ["redo", "-k", "docs.site", "empty.site"]):
+            rc, o, e = pr.run(argv, timeout=30)
+            outs.append((argv, rc, e[-300:]))
+        problems = []
+        for n in ("docs.site", "docs.site/precious.txt"):
+            try:
+                now = os.lstat(pr.path(n)).st_ino
+            except FileNotFoundError:
+                now = None
+            if now != ino[n]:
+                problems.append("%s (made by the user) %s" % (n, "was removed" if now is None else "was replaced"))
+        if os.path.exists(pr.path("docs.site/precious.txt")) and pr.read("docs.site/precious.txt") != b"written by hand":
+            problems.append("docs.site/precious.txt was modified")
+        if problems:
+            p = write_replay("C11", "user-directory", dict(kind="impl-monitor", problems=problems, commands=outs,
+                                                           scenario="mkdir docs.site; echo 'written by hand' > docs.site/precious.txt; default.site.do: mkdir \"$3\"; echo generated > \"$3/index.html\"; all.do: redo-ifchange docs.site"))
+            viol.append(Violation("C11", p, "a directory that exists and was not generated by redo was touched: " + "; ".join(problems)))
+    finally:
+        pr.destroy()
+
+
+def edit_in_start_window_scenario(viol):
+    """A hand edit of a generated target that lands after redo has decided to rebuild it (the override check has read
+    the old stamp) and before the script is started — the instrumented build is parked at the hook `job.script` for that
+    long.  Neither that build nor any later command may replace the edited file (the property: left untouched, with a
+    warning, until the user removes it).  Judged: the build under way must not install its output over the edit."""
+    import subprocess, time
+    from proj import Project, clean_env
+    pr = Project()
+    try:
+        pr.write("src", "1")
+        pr.write("out.do", "redo-ifchange src\necho generated-$(cat src)\n")
+        rc, o, e = pr.run(["redo", "out"], timeout=30)
+        if rc != 0 or pr.read("out") != b"generated-1\n":
+            return
+        pr.write("src", "2")
+        time.sleep(0.05)
+        p = subprocess.Popen(["redo-ifchange", "out"], cwd=pr.root, env=clean_env(dict(REDO_VERIF_DELAY="job.script:out=1500")), stdin=subprocess.DEVNULL,
+                             stdout=subprocess.PIPE, stderr=subprocess.PIPE, start_new_session=True)
+        time.sleep(0.7)                                   # redo is parked between its decision and the start of the script
+        pr.write("out", "EDITED BY HAND, a good deal longer than what the script writes\n")
+        try:
+            o, e = p.communicate(timeout=30)
+        except subprocess.TimeoutExpired:
+            p.kill()
+            o, e = p.communicate()
+        rc1 = p.returncode
+        after1 = pr.read("out") if os.path.exists(pr.path("out")) else None
+        rc2, o2, e2 = pr.run(["redo-ifchange", "out"], timeout=30)
+        after2 = pr.read("out") if os.path.exists(pr.path("out")) else None
+        want = b"EDITED BY HAND, a good deal longer than what the script writes\n"
+        # (what the NEXT command does with a file edited while its own build was under way is the documented corner
+        # "reported once (206), overwritten by the next build" — DESIGN §15.2, not judged here)
+        if after1 != want:
+            pth = write_replay("C11", "edit-in-start-window", dict(kind="impl-monitor", clause="a generated target that the user has since edited is left untouched by every later command until the user removes it",
+                                                                   rc_build=rc1, stderr_build=e.decode("utf-8", "replace")[-500:], content_after_build=repr(after1), rc_next=rc2, stderr_next=e2[-300:], content_after_next=repr(after2),
+                                                                   scenario="redo out; edit src; redo-ifchange out parked 1.5 s at job.script (after the override check, before the script starts); the user overwrites out by hand in that window"))
+            viol.append(Violation("C11", pth, "a hand edit made between redo's decision to rebuild and the start of the script was overwritten by that build: out holds %r after the build (exit %s)" % (after1, rc1)))
+    finally:
+        pr.destroy()
+
+
 def run(ctx):
     viol = ctx.setdefault("violations", [])
     st = stamp_level(ctx, random.Random(ctx["seed"] * 41 + 11), viol)
@@ -175,7 +251,11 @@ def run(ctx):
     cov["histories_with_killed_builds"] = len(killed)
     if not viol and not ctx.get("replay"):
         special_files_scenario(viol)
-        cov["directed_scenarios"] = 1
+        if not viol:
+            user_directory_scenario(viol)
+        if not viol:
+            edit_in_start_window_scenario(viol)
+        cov["directed_scenarios"] = 3
     cov.setdefault("distribution", {})["stamps"] = st
     cov["rule"] = "stamp strings: pairs of rendered/constant/link/malformed stamps through Stamp::detect_override and StampStr.detectOverride, and the stamps a real build records for regular files, symlinks (to a file, a directory, nothing), directories against StampStr.render of lstat/stat; " + cov.get("rule", "")
     return cov
